@@ -217,6 +217,8 @@ pub fn record(prop: &str, rules_file: &str, out: &str, nwords: usize) {
                     let mut wt = if wi % 2 == 1 && wi / 2 < directed.len() { sum.count("directed_words", 1); directed[wi / 2].clone() } else { gen_word_text(&mut r2, long) };
                     if !long { wt = wt.replace('ː', ""); }
                     let Ok(word) = v::parse_word(&wt, &al) else { continue };
+                    // a class whose words must have no long segments: also none that arise from two equal neighbours
+                    if !long && word.syllables.iter().any(|sy| (1..sy.segments.len()).any(|i| sy.segments[i] == sy.segments[i - 1])) { continue; }
                     // C06: the word must not contain the planted literal itself (its near-misses are welcome)
                     if prop == "C06" && word.syllables.iter().any(|sy| sy.segments.iter().any(|s| Some(*s) == planted)) { continue; }
                     let wl: usize = word.syllables.iter().map(|s| s.segments.len()).sum();
